@@ -33,6 +33,9 @@ func replay(raw json.RawMessage) (string, bool) {
 	}
 	ctx := context.Background()
 	sel := *c.Selection
+	if c.Phase == "referrors" {
+		return replayRefErr(ctx, w, c)
+	}
 	targets := refTargets(w, sel)
 	var vs []violation
 	var lines []string
@@ -178,4 +181,34 @@ func replayCheck(point string, exp *expectation, sel Selection, obs []obsFile) [
 		return nil
 	}
 	return vs
+}
+
+// replayRefErr re-judges a case of the referrors phase (a .proto file reference over a workspace with a planted error):
+// API always, CLI (absolute scratch directory) when the case was a CLI run.
+func replayRefErr(ctx context.Context, w *World, c Case) (string, bool) {
+	rw := newRefErrWorld(w, c.Note)
+	sel := *c.Selection
+	lines := []string{fmt.Sprintf("%s: reference targets %v; the workspace does not compile at %v", sel, refTargets(w, sel), sortedPos(rw.qUnder("")))}
+	vs := rw.judgeAPI(ctx, nil, sel, counters{})
+	if c.Format != "" {
+		if scratch, err := os.MkdirTemp("", "verif-c01-"); err == nil {
+			defer os.RemoveAll(scratch)
+			dir := filepath.Join(scratch, "w")
+			if writeWorld(dir, c.Files) == nil {
+				var cfg cliConfig
+				if c.Config != nil {
+					cfg = *c.Config
+				}
+				vs = append(vs, rw.judgeCLI(ctx, nil, filepath.ToSlash(dir), sel, cfg, counters{})...)
+			}
+		}
+	}
+	sort.Slice(vs, func(i, j int) bool { return vs[i].sig < vs[j].sig })
+	for _, v := range vs {
+		lines = append(lines, "VIOLATED "+v.sig+": "+v.what)
+	}
+	if len(vs) == 0 {
+		lines = append(lines, "no oracle violated")
+	}
+	return strings.Join(lines, "\n"), len(vs) > 0
 }
